@@ -88,6 +88,7 @@ type State struct {
 	fwd     map[string]*fwdCache
 	refClass map[string]int8 // syntactic classification of reference terms on this path (fresh / old)
 	stack    map[string]bool // references into non-escaping locals
+	priv     map[string]bool // allocation roots of private objects (zz_private.go)
 	facts    *constFacts     // term/constant (dis)equalities learned from branches
 	// readsOld: scratch state in which the definition of an opaque spec function is evaluated: every
 	// reference not known to be fresh denotes memory that existed at entry
@@ -126,6 +127,12 @@ func (s *State) Clone() *State {
 		n.stack = make(map[string]bool, len(s.stack))
 		for k, v := range s.stack {
 			n.stack[k] = v
+		}
+	}
+	if s.priv != nil {
+		n.priv = make(map[string]bool, len(s.priv))
+		for k, v := range s.priv {
+			n.priv[k] = v
 		}
 	}
 	if s.fwd != nil {
@@ -543,7 +550,12 @@ func (x *Exec) funcTerm(f *FuncV) *Term {
 	}
 	// concrete function: unique positive id per function (closures with captures lose captures -> unsupported)
 	if len(f.Free) > 0 || f.Recv != nil {
-		unsupported("closure value escapes to the heap")
+		// a closure with captured variables (or a bound method value) stored as data: it becomes an
+		// opaque function value. Whoever loads and calls it later calls "some function" (callback
+		// obligations, then the heap is forgotten); its captured variables escaped when it was made.
+		x.note("closure stored as data becomes an opaque function value: " + funcKey(f.Fn))
+		f.Sym = x.freshSym("closure", SInt)
+		return f.Sym
 	}
 	k := funcKey(f.Fn)
 	if id, ok := x.funcIds[k]; ok {
